@@ -35,6 +35,13 @@ def run_case(c):
         kernels["echo_" + n] = xo.Kernel(args=[xo.Arg(T, name="x")], ret=xo.Arg(T))
         src.append("/*gpufun*/ %s first_%s(/*gpuglmem*/ %s* p){ %s r = p[0]; p[0] = (%s)(r + 1); return r; }" % (ct, n, ct, ct, ct))
         kernels["first_" + n] = xo.Kernel(args=[xo.Arg(T, pointer=True, name="p")], ret=xo.Arg(T))
+    # one python object bound to two arguments of different declared types: each is converted for ITS type
+    src.append("/*gpufun*/ double mix_fd(float a, double b){ return b + 0*a; }")
+    kernels["mix_fd"] = xo.Kernel(args=[xo.Arg(xo.Float32, name="a"), xo.Arg(xo.Float64, name="b")], ret=xo.Arg(xo.Float64))
+    src.append("/*gpufun*/ int64_t mix_di(double a, int64_t b){ return b + 0*(int64_t)a; }")
+    kernels["mix_di"] = xo.Kernel(args=[xo.Arg(xo.Float64, name="a"), xo.Arg(xo.Int64, name="b")], ret=xo.Arg(xo.Int64))
+    src.append("/*gpufun*/ float mix_df(double a, float b){ return b + 0*(float)a; }")
+    kernels["mix_df"] = xo.Kernel(args=[xo.Arg(xo.Float64, name="a"), xo.Arg(xo.Float32, name="b")], ret=xo.Arg(xo.Float32))
     # a struct with a scalar, a dynamic array and a second scalar: read/write through the generated C API
     class KS(xo.Struct):
         a = xo.Int64
@@ -98,11 +105,17 @@ def run_case(c):
                 return {"ret": bits(n, r), "first_after": bits(n, arr[0]), "second": bits(n, arr[1])}
             attempt("first-xobject-array/%s%s%s" % (n, "/after-growth" if call.get("grow") else "", "/bytearray-buffer" if call.get("bufkind") else ""), f,
                     expect={"ret": bits(n, vals[0]), "first_after": bits(n, vals[0] + np.asarray(1, dtype=X.DT[n])), "second": bits(n, vals[1])})
+        elif k == "same_object":
+            x = call["x"]
+            attempt("same-object-for-two-arguments/float-double", lambda: bits("Float64", K.mix_fd(a=x, b=x)), expect=bits("Float64", np.float64(x)))
+            attempt("same-object-for-two-arguments/double-float", lambda: bits("Float32", K.mix_df(a=x, b=x)), expect=bits("Float32", np.float32(x)))
+            n = call["n"]
+            attempt("same-object-for-two-arguments/double-int", lambda: int(K.mix_di(a=n, b=n)), expect=int(n))
         elif k == "wrong_dtype":
             n = call["type"]; other = call["other"]
-            a = np.arange(4, dtype=X.DT[other])
+            a = np.arange(4, dtype=(X.DT[other] if other in X.DT else other))
             r = attempt("refuse-wrong-element-type/%s-given-%s" % (n, other), lambda: bits(n, getattr(K, "first_" + n)(p=a)), refused_expected=True)
-            r["array_untouched"] = bool(np.all(a == np.arange(4, dtype=X.DT[other])))
+            r["array_untouched"] = bool(np.all(a == np.arange(4, dtype=(X.DT[other] if other in X.DT else other))))
         elif k == "struct":
             buf = mkbuf(ctx, call.get("cap", 128), call.get("bufkind"))
             objs = []
